@@ -363,6 +363,7 @@ class DiscriminativeModel(ClusterMixin, BaseEstimator, ABC):
             GEMINI evaluated on the output of ``self.predict(X)``.
         """
         gemini = self.get_gemini()
+        X = check_array(X)
         K = gemini.compute_affinity(X, y)
         y_pred = self.predict_proba(X)
         return gemini(y_pred, K).item()
